@@ -77,13 +77,17 @@ def other_shapes(tier):
             m.dotted = dotted
             out.append((f"derived-type2[{attr},{'dotted' if dotted else 'nested'}]", Lib([t1, t2, m]), "M"))
         # classes with the same short name in different packages; modification written in the outer one
-        inner = Cls("Plant", comps=[Comp("x", "Real", pf, value=N(1) if attr == "value" else None), Comp("q", "Real", ["parameter"], value=N(1))])
-        lib = Cls("Lib", "package", nested=[inner])
-        plant = Cls("Plant", comps=[Comp("p", "Lib.Plant", mods={"x": mk(2)}), Comp("q", "Real", ["parameter"], value=N(2))])
-        site = Cls("Site", "package", nested=[plant, Cls("Sys", comps=[Comp("pl", "Plant", mods={"p": {"x": mk(3)}}), Comp("q", "Real", ["parameter"], value=N(3))])])
-        for k in (inner, plant, site.nested[1]):
-            k.dotted = dotted
-        out.append((f"same-short-name[{attr},{'dotted' if dotted else 'nested'}]", Lib([lib, site]), "Site.Sys"))
+        for mid_mod, sys_mod in ((1, 1), (1, 0), (0, 1)):
+            inner = Cls("Plant", comps=[Comp("x", "Real", pf, value=N(1) if attr == "value" else None), Comp("q", "Real", ["parameter"], value=N(1))])
+            lib = Cls("Lib", "package", nested=[inner])
+            plant = Cls("Plant", comps=[Comp("p", "Lib.Plant", mods={"x": mk(2)} if mid_mod else {}), Comp("q", "Real", ["parameter"], value=N(2))])
+            site = Cls("Site", "package", nested=[plant, Cls("Sys", comps=[Comp("pl", "Plant", mods={"p": {"x": mk(3)}} if sys_mod else {}),
+                                                                         Comp("q", "Real", ["parameter"], value=N(3))])])
+            for k in (inner, plant, site.nested[1]):
+                k.dotted = dotted
+            out.append((f"same-short-name[{attr},{'dotted' if dotted else 'nested'},{mid_mod}{sys_mod}]", Lib([lib, site]), "Site.Sys"))
+            if mid_mod and not sys_mod:
+                out.append((f"same-short-name-direct[{attr},{'dotted' if dotted else 'nested'}]", Lib([lib, site]), "Site.Plant"))
     return out
 
 
